@@ -371,7 +371,8 @@ pub fn eval_function(
         }
         Function::Clamp => {
             let (x, min, max) = args.number_triple()?;
-            if min > max {
+            // a NaN bound is rejected too: `f32::clamp` panics on one
+            if min.is_nan() || max.is_nan() || min > max {
                 return Err(SvgdxError::InvalidData(
                     "clamp(x, min, max) - `min` must be <= `max`".to_string(),
                 ));
